@@ -199,6 +199,9 @@ def gen_all(ctx):
         scs.append(S.runnable(lambda: S.force_bw_nfft(rng, S.gen_scenario(rng, "multi_taper_csd", nmax=16 if q else 32, max_ch=2 if q else 4), idx=_)))
     for _ in range(ctx.scale(2, 12)):
         scs.append(S.runnable(lambda: S.force_few_tapers(rng, S.gen_scenario(rng, "multi_taper_csd", nmax=16 if q else 32, max_ch=2 if q else 4))))
+    # BW * N / Fs exactly on a half-integer (np.round: half to even), k even / odd, and one ulp either side
+    for i in range(ctx.scale(8, 32)):
+        scs.append(S.force_bw_tie(rng, S.gen_scenario(rng, "multi_taper_csd", nmax=20, max_ch=2, lead=[2], layout="C"), i))
     # integer-dtype samples (incl. two leading dimensions)
     plan_i = [("periodogram_csd", [3]), ("multi_taper_csd", [2]), ("welch", [3]), ("multi_taper_csd", [2, 2]), ("periodogram_csd", [2, 2])]
     for i in range(ctx.scale(5, 25)):
